@@ -188,11 +188,14 @@ pub fn minimise(path: &str, out: &str) -> i32 {
             }
         }
     }
-    if p.fault.is_some() {
+    let mut fi = 0;
+    while fi < p.fault.len() {
         let mut c = p.clone();
-        c.fault = None;
+        c.fault.remove(fi);
         if accept(&c, &mut tried) {
             p = c;
+        } else {
+            fi += 1;
         }
     }
     // 4. choices toward 0 (fewer pre-emptions, newest-store reads); drop the tail
@@ -278,7 +281,7 @@ pub fn minimise(path: &str, out: &str) -> i32 {
             }
         }
     }
-    println!("MINIMISED\tclass={}\tops={}\tthreads={}\tfault={}\tfamilies={}\tout={}", final_class, p.total_ops(), p.par.len(), p.fault.is_some(), fams.join(","), out);
+    println!("MINIMISED\tclass={}\tops={}\tthreads={}\tfault={}\tfamilies={}\tout={}", final_class, p.total_ops(), p.par.len(), !p.fault.is_empty(), fams.join(","), out);
     println!("DETAIL\t{}", detail);
     0
 }
